@@ -25,6 +25,11 @@ CHECKS = {
             'and the unit_test() partial-credit space on the real resolver; oracle: exact Fraction arithmetic from the statement',
             'Every bounded history is executed and the final score compared with an exact reference; exhaustive within '
             'alphabet and depth.', '2/C03'),
+    'C12': ('bounded-exhaustive enumeration of source texts (all strings of <=4/5 tokens over a 20-token alphabet incl. NUL, CR, '
+            'FF, NBSP; every single edit of 12 seeds; the same inside 3-section files) and of set_source/next_section/verify '
+            'histories, executed on the real verify(); oracle: CPython ast.parse',
+            'Every input in the bounded space is run through verify() and compared with the running CPython parser '
+            '(accept/reject, line, blank, stored tree); exhaustive within the alphabets and lengths.', '2/C12'),
 }
 
 PENDING = ['C02', 'C03', 'C04', 'C05', 'C06', 'C07', 'C08', 'C09', 'C10', 'C11', 'C12', 'C13', 'C14', 'C15',
